@@ -7,11 +7,6 @@
      gen  <kind U|S> <speed> <wdir> <depth> <z0> <gp: 11 floats> <grid> <E>      -> field bulk
      st4  <depth> <sb: 7 floats> <grid> <E>                                        -> field bulk
      st6  <depth> <s6: 5 floats> <grid> <E>                                        -> field bulk
-     rom  <depth> <ro: 5 floats> <grid> <E>                                        -> field bulk
-     imb  <grid> <gen> <dis> <dedt>                                                -> field
-     bimb <bgen> <bdis> <m0>                                                       -> float
-     kcg  <depth> <w list>                                                         -> k list, cg list
-     band <depth> <sb: 7 floats> <grid> <E>                                        -> field
    grid = <w list> <th list> <df list> <dth list>   (lists are  n v1 .. vn)
    E    = nf*nd floats, row major (no count)
    field reply = nf*nd floats row major, then extra scalars *)
